@@ -543,6 +543,8 @@ class SimSocket:
         if outcome == "timeout":
             s.block(None, self.timeout if self.timeout else 30.0, "connect-timeout")
             raise _real_socket.timeout("timed out")
+        if outcome == "hostunreach":
+            raise OSError(errno.EHOSTUNREACH, "No route to host")
         self.net.on_connected(self, key)
 
     def recv(self, n):
